@@ -3,6 +3,8 @@
 import json, os
 HERE = os.path.dirname(os.path.dirname(os.path.abspath(__file__)))
 ALL = [f"C{i:02d}" for i in range(1, 21)]
+FR_ = ("frame (ownership) contracts on the real functions (pyvc/frame.py: one obligation per store / in-place operator / mutating call / summarised call / "
+       "returned alias / required statement of the current source, discharged by an ownership analysis; callee summaries are assumptions)")
 
 CHECKS = {
  "C19": dict(
@@ -89,9 +91,14 @@ CHECKS = {
     note="Trusted: pyvc encoding, documented np.arange; spec_fixed_step; documented label forms. Path resolution (get_nodes, _relabel_var, _get_var_idx) is bounded only.",
     technique="contract-based deductive verification of the index-selection helper (pyvc) + bounded contract checking of run() outputs against per-variable spec trajectories", engine="pyvc", rtc=True),
  "C07": dict(
-    level=("exploration", "Bounded: sequences of update_var / node_values / edge updates on circuits with shared template objects; afterwards the "
-            "compiled arguments, initial state and vector field must be those of the model with exactly the addressed nodes overridden.", "5 C07"),
-    note="Trusted: mdl_override + spec_rhs.", technique="bounded contract checking of override operations against the overridden spec", engine="rtc", rtc=True),
+    level=("other", "Deductive (frame core): CircuitTemplate.update_var writes only into the circuit's own containers and into DEEP COPIES of node templates "
+            "(never into a template object reachable from get_node_template), OperatorGraphTemplate.apply / OperatorTemplate.apply never write into the "
+            "template's variations or let the values of one call reach the operator cache, dict.from_operator never writes into the operator's variables - for "
+            "every input, from the current source. Bounded: sequences of update_var / node_values / edge updates on circuits with shared template objects; "
+            "afterwards the compiled arguments, initial state and vector field must be those of the model with exactly the addressed nodes overridden.", "5 C07"),
+    note="Trusted: the ownership analysis and the callee summaries named in contracts/frames.py; mdl_override + spec_rhs.",
+    technique="contract-based deductive verification of frame conditions: %s + bounded contract checking of override operations against the overridden spec" % FR_,
+    engine="pyvc", rtc=True),
  "C08": dict(
     level=("other", "Deductive core: the fixed-step loops of the NumPy, Torch and JAX backends pass the integer step counter i + t0 to the vector field at "
             "step i (both Heun stages), for all step counts and cadences. Bounded: integrators under seeded non-constant inputs for every input shape "
@@ -110,27 +117,45 @@ CHECKS = {
             "sparse, history matrices via a perturbed hand-made history, auto-07p DFDU/DFDP at text level.", "5 C12"),
     note="Trusted: central differences h=1e-6 in float64.", technique="contract-based deductive verification of the layout loop (pyvc) + bounded contract checking of the Jacobian against finite differences of the real vector field", engine="pyvc", rtc=True),
  "C13": dict(
-    level=("exploration", "Bounded: every single API operation and seeded histories of 2 (thorough 3) operations over a pool of colliding models run "
-            "in one process; afterwards the target model and every function returned earlier must satisfy their own spec.", "5 C13"),
-    note="Trusted: spec_rhs as the fresh-interpreter baseline (C01 establishes it in fresh processes).", technique="bounded contract checking over enumerated API histories", engine="rtc", rtc=True),
+    level=("other", "Deductive (frame core): the reset points (pyrates.clear, CircuitTemplate.clear, CircuitIR.clear, clear_frontend_caches, clear_ir_caches, "
+            "template.clear_cache) contain, unconditionally and not skippable by an earlier return, the clearing statement of every cache they are responsible "
+            "for; update_edges hands out nothing that aliases the base circuit's edges; OperatorTemplate.apply lets no value of the current call reach the "
+            "operator cache. Bounded: every single API operation and seeded histories of 2 (thorough 3) operations over a pool of colliding models run in one "
+            "process; afterwards the target model and every function returned earlier must satisfy their own spec.", "5 C13"),
+    note="Trusted: the ownership analysis and callee summaries (contracts/frames.py); spec_rhs as the fresh-interpreter baseline (C01 establishes it in fresh processes). "
+         "Cache transparency of node_cache / _compiled_module_cache is bounded only.",
+    technique="contract-based deductive verification of frame / required-statement conditions: %s + bounded contract checking over enumerated API histories" % FR_,
+    engine="pyvc", rtc=True),
  "C14": dict(
-    level=("exploration", "Bounded: deep snapshots of the same in-memory template before/after each read-only or copy-making operation (incl. deriving "
-            "operator/node templates) and sequences of them; afterwards run(in_place=False) twice identical and equal to the spec.", "5 C14"),
-    note="Trusted: snapshot_template reads nodes/edges/circuits/operators/equations/variables.", technique="bounded frame (snapshot) contract checking of read-only operations", engine="rtc", rtc=True),
+    level=("other", "Deductive (frame core): the dump functions behind to_yaml (from_circuit / from_node / from_edge / from_operator / add_to_dict) modify only "
+            "the dump dictionary; collect_edges / get_edges / get_edge / get_node_template modify nothing; update_edges / update_dict return nothing that aliases "
+            "their base; CircuitTemplate.update_template(in_place=False) and OperatorTemplate.update_template modify nothing of the template they are called on; "
+            "_update_variables / _update_operators likewise - for every input, from the current source. Bounded: deep snapshots of the same in-memory template "
+            "before/after each read-only or copy-making operation (incl. deriving operator/node templates, population circuits) and sequences of them; afterwards "
+            "run(in_place=False) twice identical and equal to the spec. run / get_run_func(in_place=False) themselves are bounded only (they write bookkeeping to self: known finding).", "5 C14"),
+    note="Trusted: the ownership analysis and callee summaries (contracts/frames.py); snapshot_template reads nodes/edges/circuits/operators/equations/variables.",
+    technique="contract-based deductive verification of frame conditions: %s + bounded frame (snapshot) contract checking of read-only operations" % FR_,
+    engine="pyvc", rtc=True),
  "C15": dict(
-    level=("exploration", "Bounded: models through YAML text, Python + to_yaml + from_yaml and YAML round trip against the spec; derived operators "
-            "with edit dictionaries against the token-based edit; parser.replace bounded-exhaustively (all strings up to length 5/6 over a 9-letter "
-            "alphabet) against spec_replace.", "5 C15"),
-    note="Trusted: to_yaml_dict, spec_replace. A loop-invariant proof of replace over SMT strings was judged out of reach (solvers go unknown).",
-    technique="bounded contract checking of frontend routes + bounded-exhaustive check of replace against a token-based spec", engine="rtc", rtc=True),
+    level=("other", "Deductive (small frame core): deriving a template (OperatorTemplate.update_template, _update_variables, _update_operators) modifies nothing of "
+            "the base template and returns nothing that aliases its operator variations. Bounded: models through YAML text, Python + to_yaml + from_yaml and YAML round "
+            "trip against the spec; derived operators with edit dictionaries against the token-based edit; parser.replace bounded-exhaustively (all strings up to length 5/6 "
+            "over a 9-letter alphabet) against spec_replace.", "5 C15"),
+    note="Trusted: the ownership analysis and callee summaries; to_yaml_dict, spec_replace. A loop-invariant proof of replace over SMT strings was judged out of reach (solvers go unknown).",
+    technique="contract-based deductive verification of frame conditions on the derivation functions: %s + bounded contract checking of frontend routes + bounded-exhaustive check of replace against a token-based spec" % FR_,
+    engine="pyvc", rtc=True),
  "C16": dict(
     level=("exploration", "Bounded: population circuits unit by unit against the reference semantics of the explicit node-and-edge network (signed, "
             "sparse, non-square matrices, scalar weights, heterogeneous params and initial states, delays and gamma kernels).", "5 C16"),
     note="Trusted: population_to_explicit + spec_fixed_step.", technique="bounded contract checking of Population/Connectivity against the explicit network's spec", engine="rtc", rtc=True),
  "C17": dict(
-    level=("exploration", "Bounded: every row of grid_search's parameter table against the spec trajectory of the individually parametrised circuit "
-            "(node params, edge attributes, several targets, permuted and DataFrame grids, inputs), vectorize on/off.", "5 C17"),
-    note="Trusted: mdl_override + spec_fixed_step.", technique="bounded contract checking of grid_search against individual runs of the spec", engine="rtc", rtc=True),
+    level=("other", "Deductive (small frame core): adapt_circuit works on a deep copy - it never modifies, and never returns an alias of, the circuit it is given or "
+            "the template object the YAML loader keeps ('leaves the circuits uncoupled from one another'); CircuitTemplate.update_var writes only into deep copies of node "
+            "templates. Bounded: every row of grid_search's parameter table against the spec trajectory of the individually parametrised circuit (node params, edge "
+            "attributes, several targets, permuted and DataFrame grids, inputs), vectorize on/off.", "5 C17"),
+    note="Trusted: the ownership analysis and callee summaries; mdl_override + spec_fixed_step. linearize_grid / grid_search (pandas, whole pipeline) are bounded only.",
+    technique="contract-based deductive verification of frame conditions on adapt_circuit / update_var: %s + bounded contract checking of grid_search against individual runs of the spec" % FR_,
+    engine="pyvc", rtc=True),
 }
 
 def main():
